@@ -1,6 +1,7 @@
 (* Properties/C15.v — "BoxBytes always owns exactly the bytes and the layout it reports". *)
 From Coq Require Import NArith List Bool String.
-From BM Require Import Base.Outcome Base.Prims Base.Own Base.Layout Model.Alloc Proofs.AllocProofs.
+From BM Require Import Base.Outcome Base.Prims Base.Own Base.Layout Model.Alloc Proofs.AllocProofs Proofs.AllocGen.
+From BM.Gen Require Alloc.
 Import ListNotations.
 Open Scope N_scope.
 
@@ -33,6 +34,26 @@ Proof. exact bb_roundtrip_sized. Qed.
 Theorem C15_roundtrip_slice : forall T c, ccap c = clen c -> sz T <> 0 -> try_from_box_bytes_slice T (box_bytes_of_slice T c) = Ok c.
 Proof. exact bb_roundtrip_slice. Qed.
 
+(* the impl methods as the translator regenerates them from src/allocation.rs (Gen/Alloc.v) are the
+   modelled ones, so the statements above hold of the translated code; Drop passes the allocator the
+   block's own pointer with exactly the recorded layout, and nothing when the size is 0 *)
+Theorem C15_generated : forall ENV T c b,
+  Gen.Alloc.box_bytes_of_sized ENV T c = Ret (box_bytes_of_sized T c) /\
+  Gen.Alloc.box_bytes_of_slice ENV T c = Ret (box_bytes_of_slice T c) /\
+  Gen.Alloc.try_from_box_bytes_sized ENV T b = Ret (try_from_box_bytes_sized T b) /\
+  Gen.Alloc.try_from_box_bytes_slice ENV T b = Ret (try_from_box_bytes_slice T b) /\
+  Gen.Alloc.box_bytes_drop ENV b = Ret (match bb_drop b with Some l => Some (bb_ptr b, l) | None => None end).
+Proof.
+  intros ENV T c b.
+  exact (conj (gen_box_bytes_of_sized ENV T c) (conj (gen_box_bytes_of_slice ENV T c)
+        (conj (gen_try_from_box_bytes_sized ENV T b) (conj (gen_try_from_box_bytes_slice ENV T b) (gen_box_bytes_drop ENV b))))).
+Qed.
+
+Theorem C15_generated_drop_exact : forall ENV b,
+  Gen.Alloc.box_bytes_drop ENV b =
+  Ret (if l_size (bb_layout b) =? 0 then None else Some (bb_ptr b, bb_layout b)).
+Proof. intros ENV b. rewrite gen_box_bytes_drop. unfold bb_drop. destruct (l_size (bb_layout b) =? 0); reflexivity. Qed.
+
 Example C15_nonvacuous :
   bb_drop (box_bytes_of_slice (mkTy 4 4) (mkCont 64 0 0)) = None /\
   bb_drop (box_bytes_of_slice (mkTy 4 4) (mkCont 64 3 3)) = Some (mkLayout 12 4).
@@ -44,3 +65,5 @@ Print Assumptions C15_from_sized.
 Print Assumptions C15_from_slice.
 Print Assumptions C15_roundtrip_sized.
 Print Assumptions C15_roundtrip_slice.
+Print Assumptions C15_generated.
+Print Assumptions C15_generated_drop_exact.
